@@ -68,6 +68,7 @@ type fnInfo struct {
 
 type Interp struct {
 	feedsIdx     map[ssa.Value]bool
+	redirect     map[string]*ssa.Function
 	prog         *ssa.Program
 	globals      map[*ssa.Global]*Value
 	fninfo       map[*ssa.Function]*fnInfo
@@ -694,6 +695,18 @@ func (i *Interp) feedsIndex(v ssa.Value) bool {
 	return r
 }
 
+// redirectFrom: only the command's own functions (package main, not the harness stubs themselves) are redirected.
+func (i *Interp) redirectFrom(caller *ssa.Function) bool {
+	for caller.Parent() != nil {
+		caller = caller.Parent()
+	}
+	if caller.Pkg == nil || caller.Pkg.Pkg.Name() != "main" {
+		return false
+	}
+	n := caller.Name()
+	return !strings.HasPrefix(n, "vxstub_") && !strings.HasPrefix(n, "H_") && !strings.HasPrefix(n, "vx")
+}
+
 func sameSSAValue(a, b ssa.Value) bool {
 	if a == b {
 		return true
@@ -782,6 +795,14 @@ func (i *Interp) call(caller *frame, pos token.Pos, fn Value, args []Value) Valu
 
 func (i *Interp) callSSA(caller *frame, pos token.Pos, fn *ssa.Function, args []Value, env []Value) Value {
 	fr := &frame{i: i, caller: caller, fn: fn}
+	if i.redirect != nil && fn.Parent() == nil && caller != nil && caller.fn != nil {
+		// environment stubs (C20): calls made by the command's own code to I/O functions go to
+		// harness-defined stubs with the same signature
+		if stub := i.redirect[fn.String()]; stub != nil && i.redirectFrom(caller.fn) {
+			fn = stub
+			fr.fn = stub
+		}
+	}
 	if fn.Parent() == nil {
 		name := fn.String()
 		if ext := i.intrinsics[name]; ext != nil {
